@@ -11,6 +11,7 @@ import (
 	"sync"
 	"time"
 
+	"github.com/fabiolb/fabio/auth"
 	"github.com/fabiolb/fabio/config"
 	"github.com/fabiolb/fabio/route"
 
@@ -25,6 +26,7 @@ import (
 	// callers and backends negotiate it with their direct peer, which is fabio.
 	_ "google.golang.org/grpc/encoding/gzip"
 	"google.golang.org/grpc/metadata"
+	"google.golang.org/grpc/peer"
 	"google.golang.org/grpc/stats"
 	"google.golang.org/grpc/status"
 )
@@ -150,6 +152,9 @@ type GrpcProxyInterceptor struct {
 	Config       *config.Config
 	StatsHandler *GrpcStatsHandler
 	GlobCache    *route.GlobCache
+
+	// AuthSchemes are the auth schemes registered with the server
+	AuthSchemes map[string]auth.AuthScheme
 }
 
 type targetKey struct{}
@@ -193,6 +198,12 @@ func (g GrpcProxyInterceptor) Stream(srv interface{}, stream grpc.ServerStream, 
 		return status.Error(codes.NotFound, "no route found")
 	}
 
+	// the access rules and the auth scheme of the route gate gRPC calls
+	// like any other request: check them before the backend is contacted
+	if err := g.admit(ctx, stream, target); err != nil {
+		return err
+	}
+
 	ctx = context.WithValue(ctx, targetKey{}, target)
 
 	proxyStream := proxyStream{
@@ -211,6 +222,45 @@ func (g GrpcProxyInterceptor) Stream(srv interface{}, stream grpc.ServerStream, 
 
 	return err
 }
+
+// admit checks the access rules and the auth scheme of the target for a
+// call. The checks are those of the HTTP proxy: the call is presented to them
+// as the HTTP/2 request it is, with the address of the peer as remote address
+// and the metadata (x-forwarded-for, authorization) as headers. The gRPC
+// equivalents of 403 and 401 are PermissionDenied and Unauthenticated.
+func (g GrpcProxyInterceptor) admit(ctx context.Context, stream grpc.ServerStream, t *route.Target) error {
+	req := &http.Request{Header: http.Header{}}
+	if md, ok := metadata.FromIncomingContext(ctx); ok {
+		for k, v := range md {
+			for _, h := range v {
+				req.Header.Add(k, h)
+			}
+		}
+	}
+	if p, ok := peer.FromContext(ctx); ok && p.Addr != nil {
+		req.RemoteAddr = p.Addr.String()
+	}
+
+	if t.AccessDeniedHTTP(req) {
+		return status.Error(codes.PermissionDenied, "access denied")
+	}
+
+	w := headerWriter{}
+	if !t.Authorized(req, w, g.AuthSchemes) {
+		if v := http.Header(w).Get("WWW-Authenticate"); v != "" {
+			stream.SetHeader(metadata.Pairs("www-authenticate", v))
+		}
+		return status.Error(codes.Unauthenticated, "authorization failed")
+	}
+	return nil
+}
+
+// headerWriter collects the headers an auth scheme sets on the response.
+type headerWriter http.Header
+
+func (w headerWriter) Header() http.Header         { return http.Header(w) }
+func (w headerWriter) Write(b []byte) (int, error) { return len(b), nil }
+func (w headerWriter) WriteHeader(int)             {}
 
 func (g GrpcProxyInterceptor) lookup(ctx context.Context, fullMethodName string) (*route.Target, error) {
 	pick := route.Picker[g.Config.Proxy.Strategy]
